@@ -7,7 +7,7 @@ from checks import c11
 ID = "C09"
 LEAN_MODULE = "Ctrmml.Properties.C09"
 THEOREMS = ["C09_mds_shape", "C09_track_table_exact", "C09_slot_count", "C09_volume_carried", "C09_ids_injective_partial",
-            "C09_ids_injective", "C09_tracks_exact", "C09_index_resolves", "C09_data_resolves", "C09_nothing_unused",
+            "C09_ids_injective", "C09_tracks_exact", "C09_index_resolves", "C09_event_names", "C09_data_resolves", "C09_nothing_unused",
             "C09_index_fits_byte", "C09_d19_counterexample_before_fix"]
 LEVEL = "proof"
 STREAM = "mds.bytes+conv.maps"
@@ -26,8 +26,8 @@ LEVEL_TEXT = ("Machine-checked over the model of the converter (writer of Model/
               "the target of an emitted index-bearing event (C09_nothing_unused); operands fit their byte or the export is rejected (C09_index_fits_byte; D19 and the 16-bit offset wrap fixed).")
 LEVEL_NOTE = ("Hypothesis PlatformClean: no platform `cmd` injects a raw PAT/INS/PCM/PEG/MTAB opcode (the song names nothing for such an operand). Proved on the converter's event lists "
               "and the exported seq/dblk; NOT proved: that the reader-side byte decoder of Spec/MdsResolve.checkFile reads exactly these operands back out of the convert_track bytes "
-              "(instruction boundaries of the codec) and the per-event statement 'the operand pushed for THIS event carries the key of the id THIS event names' beyond the hook case "
-              "analysis (HookStep) — both are decided per case by checkFile on the real file of every generated song (C09_full_statement). Macro-track streams drop index operands and "
+              "(instruction boundaries of the codec) — decided per case by checkFile on the real file of every generated song (C09_full_statement). The per-event statement (the operand "
+              "pushed while handling THIS song event carries the index registered under the key THIS event names) is proved per hook call (C09_event_names); maps only grow.  Macro-track streams drop index operands and "
               "zero-length drum notes emit no byte: nothing_unused is about emitted events, not bytes. Trusted: Lean kernel, hand-written model and spec, C11 encoder model as the "
               "reference for entry contents, g++/ASan/UBSan, harness.")
 RULE = ("songs built from items {fm, 2op, psg, pcm instrument, normal/extended pitch envelope, subroutine, shared subroutine, drum routine, macro track}: corpus (D7, D19 and the "
